@@ -93,7 +93,42 @@ InspHist(b) ==
       us \in { <<U(0, "inspector", ~b)>>, <<U(0, "inspector", ~b), U(0, "inspector", b)>>,
                <<U(0, "inspector", ~b), U(1, "sn", nU)>>, <<U(1, "alpn", {"h2"}), U(0, "inspector", ~b)>>,
                <<U(0, "inspector", b)>> } }
-HistAll == HistCases \cup InspHist(TRUE) \cup InspHist(FALSE)
+(* the SOURCE of the certificate material as a dimension of the histories: ca_cert and cert/key inline, from a file,
+   or from SDS; updates by other inline material, another file, the SAME file rewritten, or an SDS push *)
+M(names, v, r, ca, cas, certs) == [names |-> names, sn |-> <<>>, alpn |-> {}, ready |-> TRUE, verify |-> v, require |-> r, ca |-> ca,
+                                   casrc |-> cas, certsrc |-> certs, capath |-> 1, certpath |-> 1]
+UH(p, f, v, how) == [pos |-> p, field |-> f, val |-> v, how |-> how]
+CaUpds(p, cas, to, back) ==
+  CASE cas = "inline" -> { <<UH(p, "ca", to, "inline")>>, <<UH(p, "ca", to, "inline"), UH(p, "ca", back, "inline")>> }
+    [] cas = "file"   -> { <<UH(p, "ca", to, "samepath")>>, <<UH(p, "ca", to, "newpath")>>,
+                           <<UH(p, "ca", to, "samepath"), UH(p, "ca", back, "samepath")>>,
+                           <<UH(p, "ca", to, "newpath"), UH(p, "ca", back, "samepath")>>,
+                           <<UH(p, "ca", to, "samepath"), UH(p, "ca", back, "newpath")>> }
+    [] OTHER          -> { <<UH(p, "ca", to, "push")>>, <<UH(p, "ca", to, "push"), UH(p, "ca", back, "push")>> }
+CertUpds(certs) ==
+  CASE certs = "inline" -> { <<UH(1, "names", {nB}, "inline")>> }
+    [] certs = "file"   -> { <<UH(1, "names", {nB}, "samepath")>>, <<UH(1, "names", {nB}, "newpath")>>,
+                             <<UH(1, "names", {nB}, "samepath"), UH(1, "names", {nA}, "samepath")>> }
+    [] OTHER            -> { <<UH(1, "names", {nB}, "push")>>, <<UH(1, "names", {nB}, "push"), UH(1, "names", {nA}, "push")>> }
+MixUpds(cas, certs) ==
+  IF cas = "file" THEN { <<UH(1, "ca", "ca2", "samepath"), UH(1, "verify", FALSE, "cfg")>>,
+                         <<UH(1, "sn", nU, "cfg"), UH(1, "ca", "ca2", "samepath")>> }
+                       \cup (IF certs = "file" THEN { <<UH(1, "names", {nB}, "samepath"), UH(1, "ca", "ca2", "samepath")>> } ELSE {})
+  ELSE {}
+MatHist(cas, certs) ==
+  { [side |-> "srv", ctxs |-> <<M({nA}, TRUE, TRUE, "ca1", cas, certs)>>, upds |-> us, insp |-> FALSE, first |-> "tls",
+     hello |-> H(s, FALSE, {}, p, v)] :
+      us \in CaUpds(1, cas, "ca2", "ca1") \cup CertUpds(certs) \cup MixUpds(cas, certs),
+      s \in {nA, nB}, p \in {"none", "ca1", "ca2"}, v \in {12, 13} }
+MatHist2 ==
+  { [side |-> "srv", ctxs |-> <<M({nA}, TRUE, TRUE, "ca1", "file", "file"), M({nB}, TRUE, FALSE, "ca2", "file", "inline")>>,
+     upds |-> us, insp |-> FALSE, first |-> "tls", hello |-> H(s, FALSE, {}, p, 12)] :
+      us \in { <<UH(2, "ca", "ca1", "samepath")>>, <<UH(1, "ca", "ca2", "samepath"), UH(2, "ca", "ca1", "samepath")>>,
+               <<UH(2, "ca", "ca1", "newpath"), UH(1, "ca", "ca2", "samepath")>> },
+      s \in {nA, nB}, p \in {"none", "ca1", "ca2"} }
+MatAll == MatHist("inline", "inline") \cup MatHist("file", "file") \cup MatHist("file", "inline") \cup MatHist("inline", "file")
+          \cup MatHist("sds", "sds") \cup MatHist2
+HistAll == HistCases \cup InspHist(TRUE) \cup InspHist(FALSE) \cup MatAll
 
 QuickSrv(x) == SelCases(QuickProfiles, 3, QuickSnis, QuickAlpns, {12, 13}) \cup AuthCases({12, 13}) \cup InspCases \cup HistAll
 ThoroughSrv(x) == SelCases(ThoroughProfiles, 3, ThoroughSnis, ThoroughAlpns, {12, 13}) \cup AuthCases({12, 13}) \cup InspCases \cup HistAll
@@ -110,9 +145,14 @@ UpHist(sk) ==
       us \in { <<U(0, "skip", ~sk)>>, <<U(0, "ca", "ca2")>>, <<U(0, "sn", nOther)>>,
                <<U(0, "ca", "ca2"), U(0, "ca", "ca1")>>, <<U(0, "skip", ~sk), U(0, "skip", sk)>> } }
 
+UpMat(cas) ==
+  { [side |-> "up", cfg |-> [sn |-> nUp, skip |-> FALSE, ca |-> "ca1", casrc |-> cas, capath |-> 1], upds |-> us,
+     cert |-> [names |-> {nUp}, ca |-> cca, expired |-> FALSE]] :
+      cca \in {"ca1", "ca2"}, us \in CaUpds(0, cas, "ca2", "ca1") }
+
 AllUp == { [side |-> "up", cfg |-> [sn |-> sn, skip |-> sk, ca |-> ca], upds |-> <<>>,
             cert |-> [names |-> {nUp}, ca |-> cca, expired |-> ex]] :
              sn \in {<<>>, nUp, nOther}, sk \in BOOLEAN, ca \in {"ca1", "ca2"},
              cca \in {"ca1", "ca2", "self"}, ex \in BOOLEAN }
-         \cup UpHist(TRUE) \cup UpHist(FALSE)
+         \cup UpHist(TRUE) \cup UpHist(FALSE) \cup UpMat("inline") \cup UpMat("file") \cup UpMat("sds")
 ====
